@@ -99,4 +99,20 @@ PROPS = {
                      "the interval envelope is reported as information (conservative bounds), never as a violation",
                      "default 30-bit prime set", ASAN_NOTE],
     ),
+    "C06": dict(
+        runs=plan([dict(cfg="asan", parts=16)],
+                  [dict(cfg="asan", parts=16, tier="quick"), dict(cfg="plain", parts=16),
+                   dict(cfg="plain", parts=8, tier="quick", mode="memcheck",
+                        wrapper=["valgrind", "-q", "--error-exitcode=97", "--errors-for-leak-kinds=none"], timeout=3600)]),
+        rule=("case = (layout reim|cplx, fft|ifft, implementation, m, input family, repetition); each case runs the "
+              "transform twice on a guarded exact-size buffer; distinct by descriptor hash; non-trivial when m >= 2 "
+              "and the input is non-zero"),
+        require={"all": ["transforms_checked", "horner_validations", "impl:dispatch-native", "impl:dispatch-generic",
+                         "impl:ref-direct", "impl:avx2-direct", "impl:leaf-avx", "impl:leaf-ref", "impl:bfs16-ref",
+                         "impl:rec16-ref"]},
+        assumptions=["long-double FFT oracle (own twiddles by cosl/sinl), its rounding (about log2(m) 2^-64 relative) "
+                     "added to the tolerance; validated per case against __float128 Horner evaluation at sampled outputs",
+                     "the hand-written 16-point assembly kernels are exercised (leaf-avx, avx2 drivers) but only "
+                     "memcheck (thorough tier) instruments their memory accesses", ASAN_NOTE],
+    ),
 }
